@@ -1140,6 +1140,22 @@ static void build_expr(WorkList *list, ASTNode *expr, Environment *env) {
                 emit_literal(list, ")");
             }
 
+            /* cast_int / cast_bool: the helper depends on the static type of the argument (nl_cast_int takes a
+             * double: an int argument lost its low bits beyond 2^53, a string argument did not compile) */
+            else if ((strcmp(func_name, "cast_int") == 0 || strcmp(func_name, "cast_bool") == 0) &&
+                     expr->as.call.arg_count == 1 &&
+                     (check_expression(expr->as.call.args[0], env) == TYPE_STRING ||
+                      (strcmp(func_name, "cast_int") == 0 &&
+                       (check_expression(expr->as.call.args[0], env) == TYPE_INT || check_expression(expr->as.call.args[0], env) == TYPE_BOOL)))) {
+                Type arg_type = check_expression(expr->as.call.args[0], env);
+                if (strcmp(func_name, "cast_bool") == 0) emit_literal(list, "nl_cast_bool_from_string(");
+                else if (arg_type == TYPE_STRING) emit_literal(list, "nl_cast_int_from_string(");
+                else if (arg_type == TYPE_BOOL) emit_literal(list, "nl_cast_bool_to_int(");
+                else emit_literal(list, "nl_cast_int_from_int(");
+                build_expr(list, expr->as.call.args[0], env);
+                emit_literal(list, ")");
+            }
+
             /* Special handling for to_string/cast_string */
             else if ((strcmp(func_name, "to_string") == 0 || strcmp(func_name, "cast_string") == 0) &&
                      expr->as.call.arg_count == 1) {
